@@ -1,5 +1,5 @@
 """Registry: property id -> rule set, level and explanations."""
-from . import p_symbols, p_rs, p_charset, p_modes, p_macro, p_plan, p_codec, p_wire, p_bitmap
+from . import p_symbols, p_rs, p_charset, p_modes, p_macro, p_plan, p_codec, p_wire, p_bitmap, p_place
 
 PROPS = {}
 
@@ -226,6 +226,23 @@ PROPS["C08"] = {
                    "are mutual inverses for all contents - a statement over all 2^(w*h) arrays with no further structural handle.",
     "assumptions": ["default cargo features"],
     "technique": "MIR dominance by edge removal + expression-shape rules over THIR",
+}
+
+PROPS["C07"] = {
+    "level": "other",
+    "rules": [p_place.tab_plc, p_symbols.tab_sym],
+    "explanation": "Clause-level claim by source-level comparison with the standard's reference placement program (Annex F.3, transcribed "
+                   "independently; the repo's extra/symbol_placement.c is not the oracle). Decided after canonicalisation (polynomial "
+                   "normal form over i, j, h, w; integer comparison normalisation; De Morgan): the five module tables (utah, corner1-4: "
+                   "40 cells), the start point, the four corner triggers and their order, both diagonal sweeps with their steps and "
+                   "continuation conditions, the visited test, the wrap rules of idx() including the DMRE row wrap, the fixed corner "
+                   "pattern at (h-2,w-2),(h-1,w-1) for sizes with padding modules, MSB-first bit order of writer and reader, and that "
+                   "traversal uses the matrix's own dimensions; the padding set {12,16,20,24} and the mapping-matrix dimensions of all 48 "
+                   "sizes (TAB-SYM). Since every element equals the reference program, the placement it computes is the standard's. "
+                   "NOT decided by execution: bijectivity and read/write inversion per size (they follow from the equality with the "
+                   "reference algorithm, which is trusted).",
+    "assumptions": ["default cargo features", "the reference program of Annex F.3 as transcribed in rules/p_place.py"],
+    "technique": "source-level equivalence with the standard's reference program after canonicalisation (polynomial normal form)",
 }
 
 NOT_APPLICABLE = {
